@@ -256,6 +256,14 @@ def run_case(case, ctx):
         break
     if ok and pos != len(ev):
       ok = False
+    if ok:
+      # the energy and the force of a row are evaluated at the very same double (a multi-range potential with a range
+      # start between two different roundings of the row's separation would otherwise get energy and force of two ranges)
+      for j in range(0, len(ev) - 1, 2):
+        if ev[j][2] != ev[j + 1][2]:
+          ctx.violation("trace", "row evaluated at two different separations: energy at %r, force at %r" % (ev[j][2], ev[j + 1][2]), what="trace", mech="energy_force_separations_differ")
+          break
+      ctx.count("energy_force_same_separation_rows", len(ev) // 2)
     if not ok:
       ctx.violation("trace", "evaluation trace is not exactly one energy+force per emitted row, in row order (event %d of %d)" % (pos, len(ev)), what="trace")
     ctx.count("trace_events_checked", pos)
